@@ -119,6 +119,8 @@ pub struct Plan {
 pub fn plan(prop: &str, tier: &str, polars: bool, scale: f64) -> Plan {
     let thorough = tier == "thorough";
     let max_len = if thorough { 24 } else { 12 };
+    // lengths around powers of two, 16 ..= long_len (+1)
+    let long_len = if thorough { 1024 } else { 256 };
     let n = |q: u64, t: u64| -> u64 { ((if thorough { t } else { q }) as f64 * scale) as u64 };
     match prop {
         "C09" => Plan {
@@ -150,14 +152,26 @@ pub fn plan(prop: &str, tier: &str, polars: bool, scale: f64) -> Plan {
                 Source::Seeded {
                     name: "seeded/pipelines",
                     stream_id: 1,
-                    cfg: GenCfg { max_len, max_depth: 6, polars, mix: Mix::Pipelines },
+                    cfg: GenCfg { max_len, max_depth: 6, polars, mix: Mix::Pipelines, long: false },
                     runs: n(1_500_000, 15_000_000),
                 },
                 Source::Seeded {
                     name: "seeded/sinks",
                     stream_id: 2,
-                    cfg: GenCfg { max_len, max_depth: 3, polars, mix: Mix::Sinks },
+                    cfg: GenCfg { max_len, max_depth: 3, polars, mix: Mix::Sinks, long: false },
                     runs: n(200_000, 2_000_000),
+                },
+                Source::Seeded {
+                    name: "seeded/pipelines-long-inputs",
+                    stream_id: 4,
+                    cfg: GenCfg { max_len: long_len, max_depth: 4, polars, mix: Mix::Pipelines, long: true },
+                    runs: n(20_000, 100_000),
+                },
+                Source::Seeded {
+                    name: "seeded/sinks-long-inputs",
+                    stream_id: 5,
+                    cfg: GenCfg { max_len: long_len, max_depth: 3, polars, mix: Mix::Sinks, long: true },
+                    runs: n(5_000, 25_000),
                 },
             ],
         },
@@ -185,14 +199,26 @@ pub fn plan(prop: &str, tier: &str, polars: bool, scale: f64) -> Plan {
                 Source::Seeded {
                     name: "seeded/sinks",
                     stream_id: 2,
-                    cfg: GenCfg { max_len, max_depth: 3, polars, mix: Mix::Sinks },
+                    cfg: GenCfg { max_len, max_depth: 3, polars, mix: Mix::Sinks, long: false },
                     runs: n(1_000_000, 10_000_000),
                 },
                 Source::Seeded {
                     name: "seeded/pipelines",
                     stream_id: 1,
-                    cfg: GenCfg { max_len, max_depth: 6, polars, mix: Mix::Pipelines },
+                    cfg: GenCfg { max_len, max_depth: 6, polars, mix: Mix::Pipelines, long: false },
                     runs: n(200_000, 2_000_000),
+                },
+                Source::Seeded {
+                    name: "seeded/sinks-long-inputs",
+                    stream_id: 5,
+                    cfg: GenCfg { max_len: long_len, max_depth: 3, polars, mix: Mix::Sinks, long: true },
+                    runs: n(20_000, 100_000),
+                },
+                Source::Seeded {
+                    name: "seeded/pipelines-long-inputs",
+                    stream_id: 4,
+                    cfg: GenCfg { max_len: long_len, max_depth: 4, polars, mix: Mix::Pipelines, long: true },
+                    runs: n(5_000, 25_000),
                 },
             ],
         },
